@@ -50,6 +50,11 @@ static Operator::monomial_t readMono(std::istream& is) {
 int main() {
     std::map<std::string, Operator> env;
     std::string line;
+#ifdef POMEROL_COMPLEX_MATRIX_ELEMENTS
+    std::cout << "build complex\n";
+#else
+    std::cout << "build real\n";
+#endif
     while (std::getline(std::cin, line)) {
         std::istringstream is(line);
         std::string cmd;
